@@ -223,6 +223,7 @@ def run(ctx):
     div = 0
     replayed = steps = distinct = 0
     extra = {}
+    family = {}
     samples = []
     for p, res in results:
         div += classify_mismatches(ctx, res, "replay-" + p)
@@ -230,8 +231,12 @@ def run(ctx):
         steps += res["steps"]
         distinct = max(distinct, res["distinct"])
         for k, v in (res.get("extra") or {}).items():
-            if isinstance(v, int):
+            if isinstance(v, int) and not k.startswith("secret_pair"):
                 extra[k] = extra.get(k, 0) + v
+        for k in ("secret_pair_family", "secret_lengths", "secret_differences", "secret_pairs", "secret_pairs_hmac_equivalent"):
+            if k in (res.get("extra") or {}):
+                family[k] = res["extra"][k]
+        family.setdefault("secret_pairs_used_in_replay", {})[p] = (res.get("extra") or {}).get("secret_pairs_used_in_replay")
         samples += (res.get("samples") or [])[:1]
         log("C19 replay %-9s walks=%d steps=%d mismatches=%d extra=%s" % (p, res["replayed"], res["steps"], len(res["mismatches"]),
                                                                           res.get("extra")))
@@ -251,7 +256,7 @@ def run(ctx):
     r0 = dict(results)["ed25519"]
     if not r0["mismatches"] and r0["steps"] < steps_total:
         raise MachineryError("replay executed %d steps for %d walk steps" % (r0["steps"], steps_total))
-    for k in ("server_requests", "server_accepts", "altered_requests", "reencoded_requests", "client_deliveries"):
+    for k in ("server_requests", "server_accepts", "altered_requests", "reencoded_requests", "client_deliveries", "secret_matrix_requests"):
         if not extra.get(k):
             raise MachineryError("vacuous replay: counter %s is zero" % k)
     cov = evidence.mc_coverage(
@@ -259,13 +264,15 @@ def run(ctx):
         checker_cmd="tlc C19_MC.tla (template C19_MC.cfg; instances %s)" % ", ".join(i[0] for i in mcs + eds),
         instances=len(mcs) + len(eds), replay_instances=[i[0] for i in eds], replay_transitions_in_graphs=edges_total,
         replay_walks=walks_total, replay_steps_executed=steps, replay_distinct_classes=distinct,
-        key_profiles=profiles, edge_kinds=len(kinds), divergences_L2=div, divergence_classes=classes, notes=ctx.notes[:12],
+        key_profiles=profiles, edge_kinds=len(kinds), divergences_L2=div, divergence_classes=classes, notes=ctx.notes[:12], second_server_secrets=family,
         rule=r0.get("rule"), **extra)
     return {"level": "model_checking", "coverage": cov, "assumptions": [
         "symbolic cryptography: HMAC-SHA256, the four signature schemes of core/crypto, base64 and encoding/json are a trusted base; "
         "a signature/public-key encoding that core/crypto itself accepts as valid for the same key counts as that key's signature",
         "bounded model: <=2 challenges in flight, <=2 honest client sessions, two hostnames, two server secrets, clock <= 3-4 TTL steps; "
         "byte-level alterations are exhaustive over single-bit flips, truncations and a fixed family of extensions, not over all strings",
+        "two secrets that HMAC itself cannot tell apart (RFC 2104 zero-pads keys up to the 64-byte block: K and K||00) are the same secret; "
+        "such pairs of the family are run and counted but expected to be interchangeable",
         "the bearer path does not compare the token's hostname (as in the code; the statement does not require it)",
         "expiry boundary: a challenge/token is unexpired up to and including created+TTL (the code's strict After)",
     ]}
